@@ -247,6 +247,9 @@ def check(prog, rep):
     from . import c07
     from .shared import rule_hidden_chains_model
     rep.guarded(rule_hidden_chains_model, prog, rep, "R9")
+    # chain ends are found per chain identifier: the mmCIF reader must hand the identifier on whole (or refuse the row), never cut it
+    from .c10 import rule_no_item_is_cut
+    rep.guarded(rule_no_item_is_cut, prog, rep, "R10")
     if not c07.ingestion_decided_on_models(prog, rep, "R8", only=("no chain identifiers",)):
         shared.rule_ter_chain_count(prog, rep, "R8")  # shape-based fallback
 
